@@ -369,6 +369,7 @@ func tierConfig(p Property, tier string) tierCfg {
 }
 
 var raceInfo map[string]interface{}
+var raceHarnessErr string
 
 type candidate struct {
 	phase, idx int
@@ -553,8 +554,8 @@ func superviseCheck(p Property, tier string, seed uint64) int {
 	if p.ID() == "C20" {
 		race = raceStage(tier, seed, dir, time.Now().Add(cfg.wallCap/2))
 		if race.HarnessErr != "" {
-			fmt.Println("HARNESS-ERROR", race.HarnessErr)
-			return 2
+			// reported at the end: violations already found by the scheduled stage must not be lost
+			raceHarnessErr = race.HarnessErr
 		}
 		violations = append(violations, race.Violations...)
 		merged.Add("race_stage.worlds", int64(race.Worlds))
@@ -589,6 +590,12 @@ func superviseCheck(p Property, tier string, seed uint64) int {
 		fmt.Printf("VIOLATION property=%s replay=%s\n", rf.Property, path)
 		reported++
 		exit = 1
+	}
+	if raceHarnessErr != "" {
+		fmt.Println("HARNESS-ERROR", raceHarnessErr)
+		if exit == 0 {
+			exit = 2
+		}
 	}
 	for id, n := range merged.Known {
 		e := isKnown(p.ID(), id)
